@@ -1123,4 +1123,82 @@ theorem reexport_set_property (rt : Rt) (s : Src) (o : Opts) (doc : J) (key : St
       exact oget_oset_self _ _ _
   rw [this]; rfl
 
+/-! ## 9. ring orientation across the antimeridian
+
+`exterior_ccw_holes_cw` is stated for rings off the antimeridian (`NoWrap`).  The same holds for rings with edges
+across ±180°, with "counter-clockwise" read on the un-wrapped ring (`unwrap`, `winding` in the Spec file): the
+hypotheses are that stored longitudes are in `[-180, 180]` (what `Coordinate.__init__` leaves) and that the ring
+does not run around a pole (`turn = 0`). -/
+
+theorem lonOK_closeRingP_reverse {c : List Pos} (h : LonOK (c.map Pos.pt)) : LonOK (c.reverse.map Pos.pt) := by
+  rw [List.map_reverse]; exact lonOK_reverse h
+
+/-- with stored longitudes in range — on either side of, or across, the antimeridian — what
+    `GeoPolygon.__init__` leaves is closed, non-empty and counter-clockwise for the library's own test -/
+theorem constructor_leaves_shellOK_lon {raw o : List Pos} (h : mkOutlineP raw = .ok o)
+    (hl : LonOK ((closeRingP raw).map Pos.pt)) :
+    ShellOK o ∧ LonOK (o.map Pos.pt) ∧ (turn ((closeRingP raw).map Pos.pt) = 0 → turn (o.map Pos.pt) = 0) := by
+  have hne := mkOutlineP_ne_nil h
+  have hcl := mkOutlineP_closed h
+  have hcc := closed_map Pos.pt (closeRingP_closed raw)
+  unfold mkOutlineP at h
+  by_cases he : raw.isEmpty
+  · simp [he] at h
+  · simp only [he, Bool.false_eq_true, if_false] at h
+    cases hccw : isCCW ((closeRingP raw).map Pos.pt) with
+    | true =>
+      simp [hccw] at h
+      subst h
+      exact ⟨⟨hne, hcl, hccw⟩, hl, id⟩
+    | false =>
+      simp [hccw] at h
+      subst h
+      have ha : shoelace ((closeRingP raw).map Pos.pt) ≠ 0 := by
+        intro h0
+        simp [isCCW, h0] at hccw
+      have hrev := isCCW_reverse_lon _ hcc hl ha
+      rw [hccw] at hrev
+      refine ⟨⟨hne, hcl, ?_⟩, lonOK_closeRingP_reverse hl, ?_⟩
+      · rw [List.map_reverse]; simpa using hrev
+      · intro ht; rw [List.map_reverse, turn_reverse, ht]; simp
+
+/-- **exterior_ccw_holes_cw, antimeridian included** — for a polygon built from arbitrary vertex lists whose
+    stored longitudes are in range and whose rings do not run around a pole: in the exported coordinates the
+    exterior ring is counter-clockwise and every hole clockwise on the un-wrapped longitudes, for every `k` -/
+theorem exterior_ccw_holes_cw_antimeridian (raw : List Pos) (holes : List (List Pos)) (p : PolySrc)
+    (k : Option Nat) (h : mkPolygon raw holes = .ok p)
+    (hl : LonOK ((closeRingP raw).map Pos.pt)) (ht : turn ((closeRingP raw).map Pos.pt) = 0)
+    (hlh : ∀ r ∈ holes, LonOK ((closeRingP r).map Pos.pt))
+    (hth : ∀ r ∈ holes, turn ((closeRingP r).map Pos.pt) = 0) :
+    ∃ shell hs, p.linearRings k = shell :: hs ∧ 0 ≤ area2 (unwrap (shell.map Pos.pt)) ∧
+      ∀ r ∈ hs, area2 (unwrap (r.map Pos.pt)) ≤ 0 := by
+  obtain ⟨o, hs, h1, h2, rfl⟩ := mkPolygon_ok h
+  refine ⟨o, hs.map List.reverse, mkPolygon_linearRings k, ?_, ?_⟩
+  · obtain ⟨hso, hlo, hto⟩ := constructor_leaves_shellOK_lon h1 hl
+    exact (isCCW_iff_winding _ (closed_map Pos.pt hso.2.1) hlo (hto ht)).mp hso.2.2
+  · intro r hr
+    simp only [List.mem_map] at hr
+    obtain ⟨h0, hh0, rfl⟩ := hr
+    obtain ⟨x, hx, hfx⟩ := mapE_mem h2 h0 hh0
+    obtain ⟨hso, hlo, hto⟩ := constructor_leaves_shellOK_lon hfx (hlh x hx)
+    have hc0 := closed_map Pos.pt hso.2.1
+    have hneg : shoelace (h0.map Pos.pt) ≤ 0 := by
+      have := hso.2.2
+      simpa [isCCW] using this
+    have hrev := shoelace_eq_neg_area2_unwrap _ (closed_reverse hc0) (lonOK_reverse hlo)
+      (by rw [turn_reverse, hto (hth x hx)]; simp)
+    rw [shoelace_reverse _ hc0 hlo] at hrev
+    rw [List.map_reverse]
+    linarith
+
+/-- off the antimeridian un-wrapping changes nothing: the two readings of "counter-clockwise" agree -/
+theorem isCCW_iff_winding_and_area (r : List Pt) (hc : Closed r) (hl : LonOK r) (ht : turn r = 0) :
+    (isCCW r = true ↔ 0 ≤ area2 (unwrap r)) ∧ (isCCW r.reverse = true ↔ area2 (unwrap r) ≤ 0) := by
+  refine ⟨isCCW_iff_winding r hc hl ht, ?_⟩
+  have h1 := shoelace_eq_neg_area2_unwrap r hc hl ht
+  have h2 := shoelace_reverse r hc hl
+  unfold isCCW
+  rw [h2, h1]
+  simp
+
 end GV.GeoJson
